@@ -26,7 +26,7 @@ EXHAUSTIVE = {"quick": True, "thorough": True}
 WALL_BUDGET = {"quick": 900, "thorough": 7200}
 
 QUICK_SCRIPTS = ["login_quit", "walk", "stor_pasv", "stor_epsv_after", "retr_pasv", "retr_epsv_after", "retr_rest",
-                 "list", "mlsd", "rename", "two_transfers", "pasv_twice", "noconnect", "appe"]
+                 "list", "mlsd", "rename", "two_transfers", "pasv_twice", "noconnect", "appe", "stor_slow"]
 ACTIONS = ["rst", "fin", "ctrl-rst", "server-close"]
 
 
@@ -63,7 +63,12 @@ async def execute(net, hyg, plan):
         action = cut["action"] if cut else None
         who = (cut.get("who", 0) if cut else 0)
         stage = step_kind(d.sessions[who if who != "all" else 0]) if cut and d.cut_done else "end"
-        if action == "server-close" and d.cut_done:
+        if action and action.endswith("+close") and d.cut_done:
+            for _ in range(40):
+                if d.close_task is not None:
+                    break
+                await asyncio.sleep(0)
+        if action and (action == "server-close" or action.endswith("+close")) and d.cut_done:
             mon["server_close_returns"] += 1
             await asyncio.wait([d.close_task], timeout=10.0)
             if not d.close_task.done():
@@ -76,7 +81,7 @@ async def execute(net, hyg, plan):
         if not quiet:
             return {"inconclusive": "no quiescence within bound"}
         mon["ledger_at_quiescence"] += 1
-        closed_srv = action == "server-close" and d.cut_done
+        closed_srv = bool(action) and (action == "server-close" or action.endswith("+close")) and d.cut_done
         # sessions that were not cut ended by QUIT; whoever is still alive is closed by the harness first
         alive = [s for s in d.sessions if s.alive]
         leaks = w.leaks(expect_server_closed=closed_srv)
@@ -173,8 +178,10 @@ def run_case(case):
     for k in ks:
         for it in case.get("iters", [0]):
             plan = dict(base)
-            plan["cut"] = {"k": k, "action": case["action"], "who": case.get("who", 0), "iters": it,
-                           "zero_latency": case.get("zero_latency", False)}
+            plan["cut"] = {"k": k, "action": case["action"], "who": case.get("who", 0),
+                           "iters": it if not case["action"].endswith("+close") else 0,
+                           "close_after": it if case["action"].endswith("+close") else 0,
+                           "zero_latency": case.get("zero_latency", False) or case["action"].endswith("+close")}
             res = run_plan(plan)
             if not merge(res, plan, f"{case['action']}@{k}+{it}"):
                 return out
@@ -199,6 +206,16 @@ def gen_cases(tier, seed):
         for action in ["rst", "fin"]:
             cases.append({"kind": "enum", "action": action, "iters": [1, 2, 3] if tier == "quick" else [1, 2, 3, 5, 8],
                           "zero_latency": True, "plan": {"scripts": [name], "seed": seed}})
+    # the session ends on its own (reset / FIN / QUIT) and Server.close() lands inside its clean-up
+    for name in (["login_quit", "retr_pasv"] if tier == "quick" else ["login_quit", "retr_pasv", "stor_slow", "mlsd", "pasv_twice"]):
+        for action in ("rst+close", "fin+close", "quit+close"):
+            cases.append({"kind": "enum", "action": action, "iters": list(range(0, 14)), "stride": 5 if tier == "quick" else 2,
+                          "phase": 2, "plan": {"scripts": [name], "seed": seed}})
+    # flow-controlled download: the peer stops reading the data socket and its control connection vanishes
+    for action in ("ctrl-rst-noread", "rst", "server-close"):
+        cases.append({"kind": "enum", "action": action, "stride": 9 if tier == "quick" else 2, "phase": seed % 2,
+                      "plan": {"scripts": ["retr_huge"], "seed": seed}})
+    cases.append({"kind": "enum", "action": "ctrl-rst-noread", "plan": {"scripts": ["stor_slow"], "seed": seed}})
     # server.close() a few loop iterations after each event (e.g. after the SYN of a data connection)
     for name in (["retr_pasv", "stor_epsv_after"] if tier == "quick" else names):
         cases.append({"kind": "enum", "action": "server-close", "who": "all", "iters": [1, 2, 3] if tier == "quick" else [1, 2, 3, 4, 6],
